@@ -7,6 +7,7 @@ the mask of the current node (both hold on every state reached from `reset`, see
 -/
 import JumanjiModel.Env.GraphColoring.Lemmas
 import JumanjiModel.Env.GraphColoring.Bounds
+import JumanjiModel.Env.GraphColoring.EpisodeLemmas
 open Jm GraphColoring
 
 namespace Props.C04
@@ -97,6 +98,51 @@ theorem graph_coloring_reward (n : Nat) (s : State) (a : Int) (hw : WF n s)
 /-- the L1 colour count equals the number of distinct non-negative colours -/
 theorem graph_coloring_numUnique (n : Nat) (colors : List Int) (h : colors.length ≤ n) :
     numUnique n colors = usedColours colors := GraphColoring.numUnique_eq n colors h
+
+/-- whole episodes, from any state satisfying the invariant (`WF` + cached mask fresh): a list of colours that
+is a legal episode run to completion (`legalEpisode`: each colour legal when played, the last step LAST, no
+earlier one) has return = objective of the final state = −(number of distinct colours in the final colouring),
+and in the final state every node is coloured -/
+theorem graph_coloring_episode_return_from (n : Nat) (s : State) (as : List Nat) (h : Inv n s)
+    (he : legalEpisode n s as) :
+    runReturn n s as = -((usedColours (runState n s as).colors : Nat) : Rat) ∧
+    ∀ c ∈ (runState n s as).colors, 0 ≤ c :=
+  GraphColoring.episode_return_from n s as h he
+
+/-- whole episodes from `reset`, every `n`, every `n × n` adjacency matrix (only the shape is needed), every
+legal episode run to completion: return = −(number of distinct colours in the final colouring), all nodes
+coloured -/
+theorem graph_coloring_episode_return (n : Nat) (adj : List (List Bool)) (hadj : adj.length = n)
+    (hrows : ∀ row ∈ adj, row.length = n) (as : List Nat) (he : legalEpisode n (reset n adj).1 as) :
+    runReturn n (reset n adj).1 as = -((usedColours (runState n (reset n adj).1 as).colors : Nat) : Rat) ∧
+    ∀ c ∈ (runState n (reset n adj).1 as).colors, 0 ≤ c :=
+  GraphColoring.episode_return n adj hadj hrows as he
+
+/-- on a generated graph (symmetric, loop-free) the final state of a legal episode from `reset` is a complete
+PROPER colouring, so the return is minus the number of colours of a solution -/
+theorem graph_coloring_episode_solution (n : Nat) (adj : List (List Bool)) (hg : GraphOK n adj) (as : List Nat)
+    (he : legalEpisode n (reset n adj).1 as) : IsSolution n (runState n (reset n adj).1 as) :=
+  GraphColoring.episode_solution n adj hg as he
+
+/-- the same from any state with the invariant that carries a proper partial colouring -/
+theorem graph_coloring_episode_solution_from (n : Nat) (s : State) (as : List Nat) (h : Inv n s)
+    (hg : GraphOK n s.adj) (hf : Feasible n s) (he : legalEpisode n s as) : IsSolution n (runState n s as) :=
+  GraphColoring.episode_solution_from n s as h hg hf he
+
+/-- the hypotheses are satisfiable: the triangle, coloured 0, 1, 2 -/
+example : GraphOK 3 [[false, true, true], [true, false, true], [true, true, false]] ∧
+    legalEpisode 3 (reset 3 [[false, true, true], [true, false, true], [true, true, false]]).1 [0, 1, 2] := by
+  decide
+/-- its return is −3; the path 0 — 1 — 2 coloured 0, 1, 0 has return −2 -/
+example : runReturn 3 (reset 3 [[false, true, true], [true, false, true], [true, true, false]]).1 [0, 1, 2] = -3 := by
+  decide +kernel
+example : legalEpisode 3 (reset 3 [[false, true, false], [true, false, true], [false, true, false]]).1 [0, 1, 0] ∧
+    runReturn 3 (reset 3 [[false, true, false], [true, false, true], [false, true, false]]).1 [0, 1, 0] = -2 := by
+  decide +kernel
+/-- not a legal episode: node 1 may not take the colour of its neighbour 0; nor is a proper prefix of one -/
+example : ¬ legalEpisode 3 (reset 3 [[false, true, true], [true, false, true], [true, true, false]]).1 [0, 0, 2] ∧
+    ¬ legalEpisode 3 (reset 3 [[false, true, true], [true, false, true], [true, true, false]]).1 [0, 1] := by
+  decide +kernel
 end Props.C08
 
 namespace Props.C09
